@@ -195,6 +195,40 @@ def run(ctx):
         ctx.check(hdr == want_hdr, "D4-LAYOUT", DAB, "header", "%s" % sorted(hdr), "file header is %s; expected %s" % (sorted(hdr), sorted(want_hdr)), fn_span(dbody))
         extra = set(ds) - {(), ("distfiles",), ("patchfiles",), ("distfiles", "checksums"), ("patchfiles", "checksums")}
         ctx.check(not extra, "D4-LAYOUT", DAB, "no-other-writers", "only header, distfile and patchfile sections write", "unexpected write sections %s" % sorted(extra), fn_span(dbody))
+        # D4-EVERY: nothing recorded is left out: every iteration of a checksum loop writes its line, and whenever a size is recorded its line
+        #           is written; no property of the value (an empty hash, a zero size) decides whether a line appears
+        for wfn in (EAB, DAB):
+            wb = ctx.body(wfn)
+            wps = ctx.paths(wfn) or []
+            if wb is None:
+                continue
+            idle = []
+            for h in wb.loops:
+                backs_h = [p for p in wps if p.end[0] == "back" and p.end[1] == h]
+                if not backs_h or not any(source_of_loop(p, wb, h) == "checksums" for p in backs_h):
+                    continue
+                for p in backs_h:
+                    wrote = [e for e in p.events if e.kind == "call" and e.bb in wb.loops[h] and (ev_is(e, "Vec::extend_from_slice", "Vec::extend", "Vec::push") or delegate_of(ctx, e) is not None)]
+                    if not wrote:
+                        idle.append(("checksum", term_str(p.conds()[-1].term)[:70] if p.conds() else ""))
+            # size: on every path (iteration) where the entry's size is Some, a "Size (" line is written or the entry is delegated
+            for p in wps:
+                if p.end[0] not in ("back", "return"):
+                    continue
+                szc = [c for c in p.conds() if c.term[0] == "discr" and mentions(c.term[1], lambda s_: s_[0] == "field" and s_[3] == "size") and
+                       (c.fact == ("eq", 1) or (c.fact[0] == "ne" and 0 in c.fact[1]))]
+                if not szc:
+                    continue
+                # patch entries' sizes are deliberately not written by Distinfo::as_bytes: only the distfiles loop / Entry::as_bytes is concerned
+                chain = [source_of_loop(p, wb, h) for h in loop_chain(wb, szc[-1].bb)]
+                if wfn == DAB and "distfiles" not in chain:
+                    continue
+                has_size = any(e.kind == "call" and ev_is(e, "Vec::extend_from_slice", "Vec::extend") and any(t[0] == "lit" and "Size (" in t[1] for t in extend_tokens(fx, wb, e)) for e in p.events)
+                if not has_size and not any(e.kind == "call" and delegate_of(ctx, e) is not None for e in p.events):
+                    idle.append(("size", term_str(p.conds()[-1].term)[:70] if p.conds() else ""))
+            ctx.check(not idle, "D4-EVERY", wfn, "every-recorded-value-written", "every checksum and every recorded size is written unconditionally",
+                      "%s can leave out a %s line of an entry that records it (decided by %s): the written file no longer carries everything that was assembled or parsed"
+                      % (wfn, idle[0][0] if idle else "?", idle[0][1] if idle else "?"), fn_span(wb), nontrivial=False)
         # order of sections: distfiles loop before patchfiles loop; checksum loop before the size line
         paths = ctx.paths(DAB)
         hd = {}
@@ -224,7 +258,16 @@ def run(ctx):
             ctx.check(bool(ksz) and bool(first) and all(kb.dominates(first[0], x) for x in ksz), "D4-LAYOUT", DAB, "checksums-before-size",
                       "checksum lines precede the size line (in %s)" % dk.split("::")[-1], "in %s the size line is not written after the entry's checksum lines" % dk, fn_span(kb) if kb else "")
         else:
-            ctx.check(bool(szb) and ck is not None and all(dbody.dominates(ck, x) for x in szb), "D4-LAYOUT", DAB, "checksums-before-size",
+            # where the checksum lines of a distfile are written: the inner loop, or the call of a delegate that writes them
+            ckpos = [ck] if ck is not None else []
+            if not ckpos:
+                for p in paths:
+                    for e in p.events:
+                        if e.kind == "call" and tuple(source_of_loop(p, dbody, h) for h in loop_chain(dbody, e.bb)) == ("distfiles",):
+                            dk_ = delegate_of(ctx, e)
+                            if dk_ is not None and any("checksums" in sig2 for sig2 in collect_shapes(ctx, dk_)[0]):
+                                ckpos.append(e.bb)
+            ctx.check(bool(szb) and bool(ckpos) and all(dbody.dominates(ckpos[0], x) for x in szb), "D4-LAYOUT", DAB, "checksums-before-size",
                       "checksum lines precede the size line", "the size line is not written after the entry's checksum lines", fn_span(dbody))
         # loops are driven by values() of the maps / the checksum vector, front to back
         for p in paths:
